@@ -3,6 +3,7 @@ package main
 import (
 	"fmt"
 	"math"
+	"reflect"
 	"regexp"
 	"runtime"
 	"sort"
@@ -327,6 +328,7 @@ func evalDecoded(r *ev.Run, P props, st *enumStats, c *dcase) any {
 	}
 	if P.views {
 		checkViews(r, c, obj)
+		checkViewsTopFirst(r, c)
 	}
 	if P.fields {
 		checkFields(r, c, obj)
@@ -425,6 +427,32 @@ func checkViews(r *ev.Run, c *dcase, obj any) {
 	}
 }
 
+// checkViewsTopFirst: the same comparison on a second fresh decode whose top-level object is
+// queried (score, severity, encoding) before any view is looked at.
+func checkViewsTopFirst(r *ev.Run, c *dcase) {
+	obj, err, pan := lib.DecodeNew(c.ver, c.level, c.s)
+	if err != nil || pan != "" || obj == nil {
+		return
+	}
+	top := lib.Observe(obj)
+	for lv := c.level - 1; lv >= 0; lv-- {
+		view := lib.Sub(obj, lv)
+		ptok := lang.Project(c.ver, lv, c.tok)
+		ps := canonicalWritten(c.ver, lv, c.verLabel, ptok)
+		ind, err, pan := lib.DecodeNew(c.ver, lv, ps)
+		if err != nil || pan != "" || ind == nil {
+			continue
+		}
+		if a, b := lib.Observe(view), lib.Observe(ind); a != b {
+			r.Violate(ev.Violation{Kind: "view-differs-after-top-level-queries", Case: with(c.m(), "projection", ps), Observed: a.String(), Expected: b.String(),
+				GoTest: goTest(c, fmt.Sprintf("m.Score(); m.Severity(); m.Encode() // then compare m%s with an independent decode of %q", accessor(c.level, lv), ps))})
+		}
+	}
+	if again := lib.Observe(obj); again != top {
+		r.Violate(ev.Violation{Kind: "top-level-changes-after-view-queries", Case: c.m(), Observed: again.String(), Expected: top.String()})
+	}
+}
+
 // canonicalWritten renders tokens in canonical order without adding Not-Defined tokens.
 func canonicalWritten(ver, level int, verLabel string, tok map[string]string) string {
 	parts := []string{}
@@ -520,5 +548,156 @@ func checkEncode(r *ev.Run, c *dcase, obj any) {
 	}
 	if a, b := observables(obj), observables(again); a != b {
 		r.Violate(ev.Violation{Kind: "decode-encode-decode", Case: with(c.m(), "encoding", ob.Enc), Observed: b, Expected: a})
+	}
+}
+
+// ---------------------------------------------------------------------------------------------
+// score sequences: short histories on one object that end in a score query.  The scoring
+// properties quantify over vectors, and also name "Score() of a value whose exported fields are
+// set directly"; an object that remembers something from an earlier query, an earlier decode or
+// an earlier field value answers a later query wrongly although every fresh decode is right.
+
+func scoreBackgrounds(ver int) []struct {
+	ver string
+	tok map[string]string
+} {
+	if ver == 3 {
+		return reportBackgrounds()
+	}
+	return []struct {
+		ver string
+		tok map[string]string
+	}{
+		{"", map[string]string{"AV": "N", "AC": "L", "Au": "N", "C": "P", "I": "C", "A": "N", "E": "F", "RL": "OF", "RC": "C", "CDP": "LM", "TD": "M", "CR": "H", "IR": "M", "AR": "L"}},
+		{"", map[string]string{"AV": "L", "AC": "H", "Au": "M", "C": "C", "I": "N", "A": "P", "E": "POC", "RL": "W", "RC": "UR", "CDP": "H", "TD": "H", "CR": "L", "IR": "H", "AR": "ND"}},
+		{"", map[string]string{"AV": "A", "AC": "M", "Au": "S", "C": "C", "I": "C", "A": "C", "E": "U", "RL": "U", "RC": "UC", "CDP": "N", "TD": "L", "CR": "M", "IR": "ND", "AR": "M"}},
+	}
+}
+
+// checkScoreOf compares the score of obj's view at lv with the oracle for the token set tok.
+func checkScoreOf(r *ev.Run, ver, level, lv int, verLabel string, tok map[string]string, obj any, history []string) {
+	sub := lib.Sub(obj, lv)
+	var sc float64
+	pan := safeRun(func() string { sc = lib.Score(sub); return "" })
+	cs := map[string]any{"cvss": ver, "decoder": spec.LevelNames[level], "level": spec.LevelNames[lv], "history": history, "object_now_holds": canonicalWritten(ver, level, verLabel, tok)}
+	if pan != "" {
+		r.Violate(ev.Violation{Kind: "score-panics", Case: cs, Observed: pan, Expected: "a score"})
+		return
+	}
+	t, on := tenths(sc)
+	var ws []int
+	if ver == 3 {
+		c3 := v3Case(verLabel, tok)
+		ws = []int{v3Want(&c3, lv)}
+	} else {
+		c2 := v2Case(tok)
+		ws, _ = v2Want(c2, lv, false)
+		if (!on || !inSet(ws, t)) && lv == 2 {
+			c := &dcase{ver: 2, level: level, s: canonicalWritten(2, level, "", tok), tok: tok}
+			if knownC05(r, c, c2, t, on) {
+				return
+			}
+		}
+	}
+	if !on || !inSet(ws, t) {
+		r.Violate(ev.Violation{Kind: "score-after-history", Case: cs, Observed: fmt.Sprint(sc), Expected: tenthStr(ws) + "  (the specification's score of what the object holds now)"})
+	}
+}
+
+func scoreSequences(r *ev.Run, ver, lv int) {
+	var n int64
+	bgs := scoreBackgrounds(ver)
+	for level := lv; level < 3; level++ {
+		for bi, bg := range bgs {
+			tok0 := lang.Project(ver, level, bg.tok)
+			s0 := canonicalWritten(ver, level, bg.ver, tok0)
+			fresh := func() any {
+				o, _, _ := lib.DecodeNew(ver, level, s0)
+				return o
+			}
+			if fresh() == nil {
+				r.Violate(ev.Violation{Kind: "valid-vector-not-decoded", Case: map[string]any{"cvss": ver, "vector": s0}, Observed: "rejected", Expected: "accepted"})
+				continue
+			}
+			// (a) query, assign one field, query again — for every metric and every alternative value
+			for _, m := range spec.UpTo(ver, level) {
+				en := lib.EnumOf(ver, m.Name)
+				for ci, c := range m.Codes {
+					if c.Code == tok0[m.Name] {
+						continue
+					}
+					o := fresh()
+					for q := 0; q <= level; q++ {
+						lib.Score(lib.Sub(o, q))
+						lib.Severity(lib.Sub(o, q))
+					}
+					lib.SetField(o, m.Name, en.Consts[ci])
+					t := copyTok(tok0)
+					t[m.Name] = c.Code
+					checkScoreOf(r, ver, level, lv, bg.ver, t, o, []string{"Decode(" + s0 + ")", "Score() and Severity() of every view", fmt.Sprintf("field %s assigned the value for code %s", m.Name, c.Code), "Score()"})
+					n++
+				}
+			}
+			// (b) v3: query, assign the other version, query again
+			if ver == 3 {
+				o := fresh()
+				lib.Score(o)
+				other, ov := "3.0", 1
+				if bg.ver == "3.0" {
+					other, ov = "3.1", 2
+				}
+				lib.SetV3Ver(o, ov)
+				checkScoreOf(r, ver, level, lv, other, tok0, o, []string{"Decode(" + s0 + ")", "Score()", "Ver assigned " + other, "Score()"})
+				n++
+			}
+			// (c) query, replace the embedded lower-level object by that of another decoded vector, query again
+			if level >= 1 {
+				ob := bgs[(bi+1)%len(bgs)]
+				otok := lang.Project(ver, level, ob.tok)
+				o2, _, _ := lib.DecodeNew(ver, level, canonicalWritten(ver, level, ob.ver, otok))
+				o := fresh()
+				if o2 != nil {
+					lib.Score(o)
+					for q := 0; q < level; q++ {
+						lib.Score(lib.Sub(o, q))
+					}
+					replaceEmbedded(o, o2)
+					t := copyTok(tok0)
+					for _, m := range spec.UpTo(ver, level-1) {
+						delete(t, m.Name)
+						if c, ok := otok[m.Name]; ok {
+							t[m.Name] = c
+						}
+					}
+					checkScoreOf(r, ver, level, lv, ob.ver, t, o, []string{"Decode(" + s0 + ")", "Score() of every view", "embedded lower-level object replaced by that of another decoded vector", "Score()"})
+					n++
+				}
+			}
+			// (d) a decoder that failed before recording anything, used again: whatever it accepts scores right
+			for _, bad := range []string{"", "/", "XX:Y", "n/a", "CVSS:3.1/XX:Y", "CVSS:4.0/AV:N"} {
+				d := lib.New(ver, level)
+				lib.Decode(d, bad)
+				o, err, _ := lib.Decode(d, s0)
+				if err != nil || o == nil {
+					continue
+				}
+				checkScoreOf(r, ver, level, lv, bg.ver, tok0, o, []string{fmt.Sprintf("Decode(%q) fails", bad), "Decode(" + s0 + ") on the same decoder succeeds", "Score()"})
+				n++
+			}
+		}
+	}
+	r.Add("score_sequences", n)
+	r.Add("evaluations", n)
+}
+
+// replaceEmbedded makes dst's embedded lower-level pointer point to src's.
+func replaceEmbedded(dst, src any) {
+	dv, sv := reflect.ValueOf(dst).Elem(), reflect.ValueOf(src).Elem()
+	for i := 0; i < dv.NumField(); i++ {
+		f := dv.Type().Field(i)
+		if f.Anonymous && f.Type.Kind() == reflect.Ptr {
+			dv.Field(i).Set(sv.Field(i))
+			return
+		}
 	}
 }
